@@ -33,6 +33,10 @@ Fails(e) == CASE e.e = "tree" -> FailsTree(e)
               [] e.e = "built" -> Pre(e.p \o ".build_ccg_tree.", (IF e.x.ok THEN JEq(e.d, e.x, e.toks, e.usesym, 0) \cup (IF JTiles(e.x) THEN {} ELSE {"offsets"}) ELSE {"shape"}))
               [] e.e = "normalized" -> (IF Len(e.after) > 0 /\ e.after[1] = 95 /\ \A i \in DOMAIN e.after : e.after[i] \notin {46, 44, 40, 41, 33, 45}
                                         THEN {} ELSE {e.p \o ".normalize_tokens.identifier_with_logic_punctuation"})
+              \* the token list returned next to a tree: the tree's own leaf tokens where the reader builds both from one object
+              \* (auto, xml, ptb); the sentence's token elements, one per leaf, where the file keeps tokens apart (jigg_xml, ja)
+              [] e.e = "rtoks" -> (IF (IF e.fmt \in {"auto", "xml", "ptb"} THEN e.list = e.leaf ELSE Len(e.list) = Len(e.leaf))
+                                   THEN {} ELSE {e.p \o "." \o e.fmt \o ".token_list_is_not_the_leaf_tokens"})
               [] e.e = "reader_raised" -> {e.p \o "." \o e.fmt \o ".reader_raised"}
               [] e.e = "count" -> (IF e.got = e.expect THEN {} ELSE {e.p \o "." \o e.fmt \o ".number_of_trees_read"})
               [] e.e = "text_eq" -> (IF e.a = e.b THEN {} ELSE {e.p \o "." \o e.fmt \o "." \o e.what})
